@@ -57,6 +57,8 @@ type Ctx struct {
 	declSet map[string]bool
 	traces  map[string]Sl
 	curPC   string
+	globalWrites   []string
+	globalWritePos token.Pos
 }
 
 func newCtx(eng *Engine, pkg *pkgInfo, fn string, props []string) *Ctx {
@@ -275,12 +277,20 @@ func (c *Ctx) typeInvs(v Val, t types.Type, depth int) []string {
 		if lo, hi, ok := intRange(t); ok {
 			x := v.(Sc).T
 			out = append(out, tAnd(tLe(tInt(lo), x), tLe(x, tInt(hi))))
+		} else if c.eng != nil && c.eng.ovf {
+			x := v.(Sc).T
+			if bb, isB := t.Underlying().(*types.Basic); isB && (bb.Kind() == types.Int || bb.Kind() == types.Int64) {
+				out = append(out, tAnd(tLe("(- 9223372036854775808)", x), tLe(x, "9223372036854775807")))
+			}
 		}
 	case kRef:
 		out = append(out, tGe(v.(Sc).T, "0"))
 	case kSlice:
 		s := v.(Sl)
 		out = append(out, tGe(s.Len, "0"), tGe(s.Off, "0"), tImp(s.Nil, tEq(s.Len, "0")))
+		if c.eng != nil && c.eng.ovf {
+			out = append(out, tLe(s.Len, "72057594037927936")) // 2^56: address-space bound on lengths
+		}
 		n := fmt.Sprintf("tj!%d", depth)
 		sub := c.typeInvs(vSelect(s.Arr, n), s.Elem, depth+1)
 		for _, inv := range sub {
